@@ -28,6 +28,7 @@ import (
 	"os"
 	"reflect"
 	"regexp"
+	"slices"
 	"sort"
 	"strconv"
 	"strings"
@@ -1171,12 +1172,15 @@ func (h *Handler) Query(ctx context.Context, rawq *SearchQuery) (ret_ *SearchRes
 		if q.Sort != MapSort {
 			if q.Limit > 0 && len(res.Blobs) > q.Limit {
 				if wantAround {
-					aroundPos := sort.Search(len(res.Blobs), func(i int) bool {
-						return res.Blobs[i].Blob.String() >= q.Around.String()
+					// The results are in the requested sort order, which is
+					// by blobref for one sort type only: look for q.Around
+					// linearly.
+					aroundPos := slices.IndexFunc(res.Blobs, func(b *SearchResultBlob) bool {
+						return b.Blob == q.Around
 					})
 					// If we got this far, we know q.Around is in the results, so this below should
 					// never happen
-					if aroundPos == len(res.Blobs) || res.Blobs[aroundPos].Blob != q.Around {
+					if aroundPos < 0 {
 						panic("q.Around blobRef should be in the results")
 					}
 					lowerBound := max(aroundPos-q.Limit/2, 0)
